@@ -81,6 +81,7 @@ type mirror struct { // what the emitted steps have told the model about a node
 	holeLo, holeHi             []uint64
 	deadLast                   uint64 // entryLog.lastIndex() when the node was killed
 	lateReplay                 bool   // this life applied its start-up replay after newer entries
+	lifePub                    uint64 // appliedIndex at the start of this life: the commit loop gets the entries above it
 	replayPending              bool
 }
 
@@ -103,6 +104,8 @@ type H struct {
 	viol   int
 	reported map[string]int
 	ltime    uint64
+	cap      *capture
+	wkind    map[uint64]bool // entry index -> it is a Normal (row) entry; filled from the logs
 	real     bool // real ts-store shards behind the nodes
 	tag      string // "" or "@1 ": which replica group of the run this is (two groups can share the nodes)
 	twin     *H     // the other replica group on the same nodes
@@ -154,7 +157,7 @@ func (h *H) boot() {
 	}
 	h.mir = make([]mirror, h.n)
 	for i := range h.mir {
-		h.mir[i] = mirror{up: true, last: uint64(h.n), commit: uint64(h.n), pub: uint64(h.n), applied: uint64(h.n)}
+		h.mir[i] = mirror{up: true, last: uint64(h.n), commit: uint64(h.n), pub: uint64(h.n), applied: uint64(h.n), lifePub: uint64(h.n)}
 	}
 	h.leader = -1
 	// ts-meta's record of the group, built by the real code
@@ -304,11 +307,67 @@ func (h *H) quiet() bool {
 		if atomic.LoadInt32(&x.st.busy) != atomic.LoadInt32(&x.st.waiting) {
 			return false // an apply is inside the store (and not merely waiting at the gate)
 		}
+		// the commit loop has finished every row entry it was handed (decoding a batch of several MiB
+		// takes longer than the polls are apart); not checked after a snapshot install, which skips entries
+		if !h.mir[i].gated && len(h.mir[i].holeLo) == 0 && !(o.snap > h.mir[i].last && o.snap > h.mir[i].sc) {
+			want, ok := h.countWrites(x, h.mir[i].lifePub, o.applied)
+			if ok && atomic.LoadInt64(&x.st.applied) < want {
+				return false
+			}
+		}
 		if o.applied < o.commit && !(h.mir[i].gated) {
 			return false
 		}
 	}
 	return true
+}
+
+// wouldRotate: would the next entry of payload size sz start a new entry file? (the canonical layout:
+// AddEntries rotates when the file has 30000 entries or offset + 4 + len exceeds 32 MiB, data from 1 MiB)
+func (h *H) wouldRotate(sz int) bool {
+	off, cnt := 1<<20, 0
+	for i := range h.clog {
+		if cnt >= 30000 || off+4+h.clog[i].size > 32<<20 {
+			off, cnt = 1<<20, 0
+		}
+		off += 4 + h.clog[i].size
+		cnt++
+	}
+	return cnt >= 30000 || off+4+sz > 32<<20
+}
+
+// entrySize is len(Entry.Data) of a write proposed on node p
+func entrySize(p, sh, k, v, pad int) int {
+	return 4 + 1 + len(fmt.Sprintf("%s_%d", dbName, p)) + 8 + len(tailOf(sh, k, v, pad))
+}
+
+// countWrites: how many row entries lie in (lo, hi] of the log (kinds are cached; an entry the node
+// does not have any more was counted while it had it).
+func (h *H) countWrites(x *nd, lo, hi uint64) (int64, bool) {
+	if h.wkind == nil {
+		h.wkind = map[uint64]bool{}
+	}
+	var n int64
+	for idx := lo + 1; idx <= hi; idx++ {
+		w, ok := h.wkind[idx]
+		if !ok {
+			if idx <= uint64(len(h.clog)) {
+				w = h.clog[idx-1].kind == "write"
+			} else {
+				ents, err := x.store.Entries(idx, idx+1, 1<<40)
+				if err != nil || len(ents) != 1 {
+					return 0, false
+				}
+				d := ents[0].Data
+				w = ents[0].Type == raftpb.EntryNormal && len(d) >= 4 && binary.BigEndian.Uint32(d) == uint32(raftlog.Normal)
+			}
+			h.wkind[idx] = w
+		}
+		if w {
+			n++
+		}
+	}
+	return n, true
 }
 
 // decode one raft entry into the mirror's terms
@@ -348,11 +407,12 @@ func (h *H) explain() {
 	if h.err != nil {
 		return
 	}
+	cp := h.cap // one consistent look at a quiet group (after): nothing below reads the running nodes
 	// 1. new committed entries, read from the node that knows the highest commit index
 	best, bestC := -1, uint64(0)
 	for i := 0; i < h.n; i++ {
 		if h.mir[i].up {
-			if o := h.cl.nodes[i].observe(); o.commit > bestC {
+			if o := cp.o[i]; o.commit > bestC {
 				best, bestC = i, o.commit
 			}
 		}
@@ -364,9 +424,9 @@ func (h *H) explain() {
 		if !m.up || i == h.leader || h.leader < 0 || !h.mir[h.leader].up || m.last >= known {
 			continue
 		}
-		o := h.cl.nodes[i].observe()
+		o := cp.o[i]
 		if o.last >= known {
-			if lf := h.cl.nodes[h.leader].observe().first; m.last+1 < lf {
+			if lf := cp.o[h.leader].first; m.last+1 < lf {
 				// the leader no longer had entry m.last+1: raft sent its snapshot
 				m.holeLo, m.holeHi = append(m.holeLo, m.last), append(m.holeHi, o.snap)
 				m.pub, m.applied = o.snap, o.snap // RaftNode.appliedIndex = snapshot index
@@ -377,7 +437,7 @@ func (h *H) explain() {
 		}
 	}
 	if best >= 0 && bestC > known {
-		ents, err := h.cl.nodes[best].store.Entries(known+1, bestC+1, 1<<40)
+		ents, err := cp.ents, cp.entsErr
 		if err != nil || uint64(len(ents)) != bestC-known {
 			h.fail("cannot read committed entries %d..%d from node %d: %v (%d)", known+1, bestC, best, err, len(ents))
 			return
@@ -402,7 +462,7 @@ func (h *H) explain() {
 			for m := 0; m < h.n; m++ {
 				holds := false
 				if h.mir[m].up {
-					holds = h.cl.nodes[m].observe().last >= re.Index
+					holds = cp.o[m].last >= re.Index
 				} else {
 					holds = h.mir[m].deadLast >= re.Index // it was in its log when it died (then uncommitted)
 				}
@@ -427,7 +487,7 @@ func (h *H) explain() {
 			continue
 		}
 		x := h.cl.nodes[i]
-		o := x.observe()
+		o := cp.o[i]
 		if o.last > total {
 			o.last = total // an uncommitted tail is not part of the model's log
 		}
@@ -443,7 +503,7 @@ func (h *H) explain() {
 			m.pub = m.commit
 		}
 		target := m.pub
-		if m.gated && atomic.LoadInt32(&x.st.waiting) > 0 {
+		if m.gated && cp.waiting[i] > 0 {
 			// blocked at the first write entry after what it has applied
 			for j := m.applied + 1; j <= m.pub; j++ {
 				if h.clog[j-1].kind == "write" {
@@ -472,6 +532,12 @@ func (h *H) explain() {
 						select {
 						case err := <-w.done:
 							w.res = classify(err)
+							if w.res == "ok" || w.res == "err" {
+								cp.acked[w.uid] = w.res
+							}
+							if cp.pending[i] > 0 {
+								cp.pending[i]-- // it was still registered when the look was taken
+							}
 						case <-time.After(20 * time.Second):
 						}
 					}
@@ -538,13 +604,15 @@ func (h *H) digestOp() string {
 }
 
 func (h *H) digest() string {
+	cp := h.cap
 	var ack []string
-	ws := append([]*writer(nil), h.wr...)
-	sort.Slice(ws, func(a, b int) bool { return ws[a].uid < ws[b].uid })
-	for _, w := range ws {
-		if w.res == "ok" || w.res == "err" {
-			ack = append(ack, fmt.Sprintf("%d:%s", w.uid, w.res))
-		}
+	var uids []int
+	for u := range cp.acked {
+		uids = append(uids, u)
+	}
+	sort.Ints(uids)
+	for _, u := range uids {
+		ack = append(ack, fmt.Sprintf("%d:%s", u, cp.acked[u]))
 	}
 	rg := h.rgp()
 	var peers []uint32
@@ -573,28 +641,20 @@ func (h *H) digest() string {
 	}
 	parts := []string{fmt.Sprintf("D clog=%d infl=%d lead=%s master=%d peers=%s alive=%s health=%d acked=%s", len(h.clog), len(h.infl), lead, rg.MasterPtID, natList(peers), natList(alive), health, ackS)}
 	for i := 0; i < h.n; i++ {
-		x := h.cl.nodes[i]
 		if !h.mir[i].up {
 			parts = append(parts, fmt.Sprintf("n%d down", i))
 			continue
 		}
-		o := x.observe()
+		o := cp.o[i]
 		if o.last > uint64(len(h.clog)) {
 			o.last = uint64(len(h.clog))
 		}
-		fsText := natList(entryFileFirsts(filepath.Join(x.dir, "wal", "__raft_entries__")))
-		fText := fmt.Sprint(o.first)
+		fsText, fText := cp.fs[i], fmt.Sprint(o.first)
 		if len(h.mir[i].holeLo) > 0 {
 			fsText, fText = "~", "~" // after a snapshot install the file layout is no longer the canonical one (C17 finding)
 		}
-		line := fmt.Sprintf("n%d up f=%s l=%d fs=%s c=%d p=%d a=%d s=%d sc=%d snp=%s w=%d D=%s",
-			i, fText, o.last, fsText, o.commit, o.applied, h.mir[i].applied, o.snap, o.sc, natList(o.snps), x.rn.VerifPending(), x.st.mergedText())
-		if !h.real {
-			x.st.mu.Lock()
-			line += fmt.Sprintf(" F=%s I=%s M=%s", layerText(x.st.files), layerText(x.st.imm), layerText(x.st.mem))
-			x.st.mu.Unlock()
-		}
-		parts = append(parts, line)
+		parts = append(parts, fmt.Sprintf("n%d up f=%s l=%d fs=%s c=%d p=%d a=%d s=%d sc=%d snp=%s w=%d %s",
+			i, fText, o.last, fsText, o.commit, o.applied, h.mir[i].applied, o.snap, o.sc, natList(o.snps), cp.pending[i], cp.data[i]))
 	}
 	return strings.Join(parts, " | ")
 }
@@ -732,9 +792,74 @@ func (h *H) violation(line int, class, desc string) {
 }
 
 // step: after an action, settle, explain, digest, check
+type capture struct {
+	o       []obs
+	waiting []int32
+	pending []int             // waiters registered on the node
+	data    []string          // merged view of the node's rows (+ the layers, with the stand-in)
+	fs      []string          // first indexes of the node's entry files
+	acked   map[int]string    // writer uid -> ok | err, as answered so far
+	ents    []raftpb.Entry // the committed entries the mirror does not know yet
+	entsErr error
+}
+
+// look takes every observation `explain` needs, in one go.
+func (h *H) look() *capture {
+	cp := &capture{o: make([]obs, h.n), waiting: make([]int32, h.n), pending: make([]int, h.n), data: make([]string, h.n), fs: make([]string, h.n), acked: map[int]string{}}
+	for _, w := range h.wr {
+		if w.res == "" {
+			select {
+			case err := <-w.done:
+				w.res = classify(err)
+			default:
+			}
+		}
+		if w.res == "ok" || w.res == "err" {
+			cp.acked[w.uid] = w.res
+		}
+	}
+	best, bestC := -1, uint64(0)
+	for i := 0; i < h.n; i++ {
+		if !h.mir[i].up {
+			continue
+		}
+		cp.o[i] = h.cl.nodes[i].observe()
+		cp.waiting[i] = atomic.LoadInt32(&h.cl.nodes[i].st.waiting)
+		x := h.cl.nodes[i]
+		cp.pending[i] = x.rn.VerifPending()
+		cp.fs[i] = natList(entryFileFirsts(filepath.Join(x.dir, "wal", "__raft_entries__")))
+		cp.data[i] = "D=" + x.st.mergedText()
+		if !h.real {
+			x.st.mu.Lock()
+			cp.data[i] += fmt.Sprintf(" F=%s I=%s M=%s", layerText(x.st.files), layerText(x.st.imm), layerText(x.st.mem))
+			x.st.mu.Unlock()
+		}
+		if cp.o[i].commit > bestC {
+			best, bestC = i, cp.o[i].commit
+		}
+	}
+	if known := uint64(len(h.clog)); best >= 0 && bestC > known {
+		cp.ents, cp.entsErr = h.cl.nodes[best].store.Entries(known+1, bestC+1, 1<<40)
+	}
+	return cp
+}
+
+// step: after an action, settle, explain, digest, check. The observations are taken while the group
+// is quiet: if anything moved while they were taken (a proposal of several MiB can take longer to
+// show up than the settle polls are apart), settle again and look again.
 func (h *H) after(action string) {
 	h.log = append(h.log, action)
-	h.settle()
+	for try := 0; try < 200 && h.err == nil; try++ {
+		h.settle()
+		if h.err != nil {
+			return
+		}
+		before := h.rawState()
+		h.cap = h.look()
+		if h.rawState() == before && h.quiet() {
+			break
+		}
+	}
 	h.explain()
 	if h.err != nil {
 		return
@@ -962,6 +1087,7 @@ func (h *H) restart(n int, late bool) {
 	m := &h.mir[n]
 	m.up, m.seq, m.failPlan = true, 0, 0
 	m.pub, m.applied, m.sc = o.commit, o.commit, o.snap
+	m.lifePub = o.commit
 	m.last, m.commit = o.last, o.commit
 	if m.last > uint64(len(h.clog)) {
 		m.last = uint64(len(h.clog))
@@ -1020,6 +1146,14 @@ func (h *H) actTrunc(tolerate bool) {
 	if l < 0 || !h.mir[l].up {
 		return
 	}
+	h.cl.mu.Lock()
+	h.cl.truncWindow = true
+	h.cl.mu.Unlock()
+	defer func() {
+		h.cl.mu.Lock()
+		h.cl.truncWindow = false
+		h.cl.mu.Unlock()
+	}()
 	rn := h.cl.nodes[l].rn
 	o := h.cl.nodes[l].observe()
 	if o.snap == 0 {
@@ -1079,7 +1213,10 @@ func (h *H) actTruncSize(n int) {
 	if !h.mir[n].up || h.cl.nodes[n].observe().snap == 0 {
 		return
 	}
-	if err := h.cl.nodes[n].rn.VerifDeleteEntryLogBySize(); err != nil {
+	config.GetStoreConfig().ClearEntryLogTolerateSize = 1
+	err := h.cl.nodes[n].rn.VerifDeleteEntryLogBySize()
+	config.GetStoreConfig().ClearEntryLogTolerateSize = toml.Size(1 << 50)
+	if err != nil {
 		h.fail("deleteEntryLogBySize: %v", err)
 		return
 	}
@@ -1236,7 +1373,7 @@ func Run(c *hx.Ctx) error {
 	config.SetShardMemTableSizeLimit(1 << 30) // no size-triggered flush behind the harness's back
 	config.SetWaitCommitTimeout(10 * time.Minute) // no wall-clock outcome: a writer whose proposal is lost ends with the kill of its node
 	config.GetStoreConfig().ClearEntryLogTolerateTime = toml.Duration(6 * time.Hour)
-	config.GetStoreConfig().ClearEntryLogTolerateSize = 1 // deleteEntryLogBySize: the limit is always exceeded when the harness calls it
+	config.GetStoreConfig().ClearEntryLogTolerateSize = toml.Size(1 << 50) // the nodes' own one-minute ticker never truncates by size; actTruncSize lowers it for its call
 	root := os.Getenv("VERIF_SCRATCH")
 	if root == "" {
 		root = "/var/tmp/c05-x"
@@ -1314,6 +1451,7 @@ func (h *H) shutdown() {
 // proposal that was lost (it would wait for the commit time-out): its node is killed and restarted.
 func (h *H) waitWriters() {
 	h.settle()
+	h.cap = h.look()
 	h.explain()
 	for _, w := range h.wr {
 		if w.res == "" && h.err == nil {
